@@ -512,6 +512,15 @@ def r3_monotone_test(ctx):
         is_asg(s_, G) for s_ in before) if S and G else False
     fresh = None not in (p_w, p_s, p_g) and p_s < p_g and (
         (p_g <= p_t and p_w >= p_t) or (primed and p_t <= p_w < p_s))
+    if not fresh and (any(call_name(c) in ("next", "__next__") or (
+            isinstance(c.func, ast.Attribute) and c.func.attr in (
+                "__next__", "send")) for c in calls_in(f)) or any(
+            isinstance(s_, ast.Assign) and isinstance(
+                s_.targets[0], ast.Tuple) and isinstance(s_.value, ast.Call)
+            for s_ in ast.walk(f))):
+        raise Undecided("smooth_axis_monotone: the candidates come from an "
+                        "iterator/helper whose window progression is not "
+                        "understood")
     ctx.check(fresh, lp,
               "window doubled and smoothing/gradient recomputed",
               "after rejecting a window the smoothing is not recomputed "
